@@ -621,6 +621,31 @@ def t_fresh_frames(g):
             ("deffn", "fwd", [], CALL("later", I(3))), ("deffn", "later", [("z", None, False)], ("bin", "*", V("z"), I(2))), LOG("fwd", CALL("fwd"))]
 
 
+def t_mutable_defaults(g):
+    """defaults are evaluated at every call that omits the argument: a default collection changed in place by one
+    call is new again in the next, for every closure made from the same definition"""
+    r = g.r
+    a, b, c = r.sample(range(1, 9), 3)
+    out = [("deffn", "collect", [("x", None, False), ("acc", ("list", [] if r.random() < 0.6 else [I(a)]), False)],
+            ("seq", [CALL("append", V("acc"), V("x")), V("acc")])),
+           LOG("md1", CALL("collect", I(a))), LOG("md2", CALL("collect", I(b))),
+           LOG("md3", CALL("collect", I(c), ("list", [I(9)]))), LOG("md4", CALL("collect", I(c))),
+           ("deffn", "tally", [("k", None, False), ("m", ("map", [(S("a"), I(0)), (S("b"), I(0))]), False)],
+            ("seq", [("idxassign", V("m"), V("k"), I(a)), V("m")])),
+           LOG("mt1", CALL("tally", S("a"))), LOG("mt2", CALL("tally", S(r.choice(["b", "c"])))), LOG("mt3", CALL("tally", S("a"))),
+           ("deffn", "grow", [("s", ("set", [I(1)]), False), ("e", I(2), False)], ("seq", [CALL("append", V("s"), V("e")), V("s")])),
+           LOG("ms1", CALL("grow")), LOG("ms2", CALL("grow", ("named", "e", I(b + 10)))), LOG("ms3", CALL("grow")),
+           ("deffn", "maker", [], ("fn", [("x", None, False), ("acc", ("list", [I(0)]), False)], ("seq", [CALL("append", V("acc"), V("x")), V("acc")]))),
+           ("def", "f1", CALL("maker")), ("def", "f2", CALL("maker")),
+           LOG("mc1", CALL("f1", I(a))), LOG("mc2", CALL("f2", I(b))), LOG("mc3", CALL("f1", I(c))),
+           # a literal inside the body is a new value at every evaluation as well
+           ("deffn", "fresh", [], ("map", [(S("n"), I(0))])),
+           ("def", "r1", CALL("fresh")), ("idxassign", V("r1"), S("n"), I(a)), LOG("mf1", CALL("fresh")), LOG("mf2", V("r1")),
+           ("deffn", "freshl", [], ("list", [I(1), I(2)])),
+           ("def", "l1", CALL("freshl")), CALL("append", V("l1"), I(b)), LOG("mf3", CALL("freshl")), LOG("mf4", V("l1"))]
+    return out
+
+
 def t_def_in_block(g):
     return [("deffn", "f", [], ("seq", [("block", [("def", "inblock", I(5))], [], [LOG("fin", I(0))]),
                                         ("if", [(B(True), ("seq", [("def", "inbranch", I(6))]))], None),
@@ -661,4 +686,4 @@ def t_higher_order(g):
             LOG("h7", ("comp", "list", [CALL("apply1", ("fn", [("e", None, False)], ("bin", "+", V("e"), V("k"))), V("i"))], [("i", None, ("lit", ("list", (("int", 1), ("int", 2)))))], "single", None))]
 
 
-SCOPE_TEMPLATES = [t_destructuring, t_higher_order, t_counter, t_lexical_vs_dynamic, t_assign_nearest, t_defaults, t_binding, t_methods, t_fresh_frames, t_def_in_block]
+SCOPE_TEMPLATES = [t_destructuring, t_higher_order, t_counter, t_lexical_vs_dynamic, t_assign_nearest, t_defaults, t_binding, t_methods, t_fresh_frames, t_def_in_block, t_mutable_defaults]
